@@ -126,6 +126,10 @@ func (do *ObjectContainer) PutItemAwareByName(name string, itemAware IItemAware)
 }
 
 func (do *ObjectContainer) Clone() map[string]IItem {
+	// the maps are written under mu (a task answer storing a data object): reading
+	// them unlocked crashed the program (concurrent map iteration and map write)
+	do.mu.RLock()
+	defer do.mu.RUnlock()
 	out := make(map[string]IItem)
 	for name, item := range do.dataObjects {
 		value := item.Get()
@@ -240,6 +244,8 @@ func (p *PropertyContainer) PutItemAwareByName(name string, itemAware IItemAware
 }
 
 func (p *PropertyContainer) Clone() map[string]IItem {
+	p.mu.RLock()
+	defer p.mu.RUnlock()
 	out := make(map[string]IItem)
 	for name, item := range p.items {
 		value := item.Get()
@@ -449,13 +455,14 @@ func (f *FlowDataLocator) PutIItemAwareLocator(name string, locator IItemAwareLo
 func (f *FlowDataLocator) CloneItems(name string) map[string]IItem {
 	out := make(map[string]IItem)
 
-	f.vmu.RLock()
+	// locators is guarded by lmu (vmu guards the variables)
+	f.lmu.RLock()
 	locator, ok := f.locators[name]
 	if !ok {
-		f.vmu.RUnlock()
+		f.lmu.RUnlock()
 		return out
 	}
-	f.vmu.RUnlock()
+	f.lmu.RUnlock()
 
 	return locator.Clone()
 }
